@@ -11,7 +11,7 @@ dst = f'/verif/seeded/{prop}-{var}'
 os.makedirs(dst, exist_ok=True)
 for f in ('patch.diff', 'demo.rs', 'demo_path.txt', 'notes.md'):
     shutil.copy(f'{src}/{f}', f'{dst}/{f}')
-name = 'rec'
+name = os.environ.get('MIRROR_NAME', 'rec')
 wt, mv = f'/tmp/mir-wt-{name}', f'/tmp/mir-v-{name}'
 env = dict(os.environ, CARGO_NET_OFFLINE='true', RUST_BACKTRACE='0')
 def sh(cmd, cwd=None):
